@@ -2,6 +2,7 @@ package sched
 
 import (
 	"fmt"
+	"regexp"
 	"sort"
 	"strings"
 	"sync"
@@ -162,10 +163,24 @@ func (s *Scenario) Explore(bound, maxSchedules int) *Report {
 				fmt.Fprintf(&b, "%v%d%s;", p.Enabled, p.Chosen, p.Loc)
 			}
 			fmt.Fprintf(&b, "%v", results)
-			obs[k] = b.String()
+			obs[k] = canonAddrs(b.String())
 		}
 		if obs[0] != obs[1] {
-			panic("sched: the same schedule produced different observations (uncontrolled nondeterminism in scenario " + s.Name + ")")
+			d := 0
+			for d < len(obs[0]) && d < len(obs[1]) && obs[0][d] == obs[1][d] {
+				d++
+			}
+			lo, hi0, hi1 := d-200, d+200, d+200
+			if lo < 0 {
+				lo = 0
+			}
+			if hi0 > len(obs[0]) {
+				hi0 = len(obs[0])
+			}
+			if hi1 > len(obs[1]) {
+				hi1 = len(obs[1])
+			}
+			panic("sched: the same schedule produced different observations (uncontrolled nondeterminism in scenario " + s.Name + "): first difference at " + fmt.Sprint(d) + ": ..." + obs[0][lo:hi0] + "... versus ..." + obs[1][lo:hi1] + "...")
 		}
 		rep.Replayed++
 	}
@@ -209,4 +224,21 @@ func (s *Scenario) FreeRun(iters int) []string {
 		wg.Wait()
 	}
 	return bad
+}
+
+var addrRe = regexp.MustCompile(`0x[0-9a-f]{6,}`)
+
+// canonAddrs renames heap addresses in an observation string by order of first appearance: an object reached through
+// a pointer-typed package variable is re-allocated whenever the variable is restored to its baseline, and its address
+// is not an observation.
+func canonAddrs(s string) string {
+	names := map[string]string{}
+	return addrRe.ReplaceAllStringFunc(s, func(a string) string {
+		n, ok := names[a]
+		if !ok {
+			n = fmt.Sprintf("@%d", len(names))
+			names[a] = n
+		}
+		return n
+	})
 }
